@@ -74,7 +74,7 @@ def _member(draw, table, ident):
         desc = draw(st.sampled_from(["", " description: a test path", " note: second, third; and more"]))
         outer = f"~ {free} {fields}{desc} ~".replace("  ", " ")
     marker = False
-    if draw(st.integers(0, 150)) == 0:
+    if draw(st.integers(0, 60)) == 37:
         outer = f"~ separator text {MARKER} inside a comment {(' id: ' + ident) if ident else ''} ~"
         marker = True
     path = f"$[{scan}][{' ' if not nl else chr(10) + '  '}{body}{' ' if not nl else chr(10)}]"
